@@ -152,8 +152,10 @@ def abstract_to_list(L):
 
 
 # ------------------------------------------------------------------ layout instantiation
-def instantiate(L, pick):
-    """abstract TLA+ layout record -> LJSON for the worker; `pick(options)` chooses index widths."""
+def instantiate(L, pick, strided=False):
+    """abstract TLA+ layout record -> LJSON for the worker; `pick(options)` chooses index widths.
+    strided: multidimensional NumpyArrays are, one time in three, views into a larger buffer (a column range of a wider
+    array that does not start at its first element: rows not packed back to back)"""
     c = L["c"]
     out = dict(L)
     if c == "Numpy":
@@ -177,17 +179,26 @@ def instantiate(L, pick):
             neg = any(x < 0 for x in L.get("i", []))
             out["w"] = pick(OPTWIDTHS if neg else WIDTHS)
     if "x" in L:
-        out["x"] = instantiate(L["x"], pick)
+        out["x"] = instantiate(L["x"], pick, strided)
         # a RegularArray over a NumpyArray that it covers exactly is, half of the time, given as ONE multidimensional
         # NumpyArray (same type, same value): NumpyArray's own strided getitem/reduce/... paths
         x = out["x"]
-        if (c == "Regular" and x.get("c") == "Numpy" and L["size"] > 0 and "p" not in x and not L.get("p")
+        if (c == "Regular" and x.get("c") == "Numpy" and "st" not in x and L["size"] > 0 and "p" not in x and not L.get("p")
                 and pick([0, 1]) == 1):
             inner = x.get("shape", [len(x["d"])])
             if inner[0] % L["size"] == 0 and inner[0] > 0:
-                return {"c": "Numpy", "dt": x["dt"], "d": x["d"], "shape": [inner[0] // L["size"], L["size"]] + inner[1:]}
+                rows, size = inner[0] // L["size"], L["size"]
+                if strided and len(inner) == 1 and pick([0, 1, 2]) == 2:
+                    def other(v):                      # a value that the view does not hold at that place
+                        return (1 - v) if x["dt"] in ("b", "bool") else ((v + 50) if isinstance(v, (int, float)) else v)
+                    buf = [other(x["d"][0])]          # one element before the view, one after every row
+                    for r in range(rows):
+                        row = x["d"][r * size:(r + 1) * size]
+                        buf += row + [other(row[-1])]
+                    return {"c": "Numpy", "dt": x["dt"], "d": buf, "shape": [rows, size], "st": [size + 1, 1], "off": 1}
+                return {"c": "Numpy", "dt": x["dt"], "d": x["d"], "shape": [rows, size] + inner[1:]}
     if "xs" in L:
-        out["xs"] = [instantiate(x, pick) for x in L["xs"]]
+        out["xs"] = [instantiate(x, pick, strided) for x in L["xs"]]
     return out
 
 
@@ -261,7 +272,7 @@ def slice_item(it):
 def steps_for(case, pick):
     act = case["act"]
     a = case.get("args", {})
-    build = {"op": "build", "dst": "a", "layout": instantiate(case["from"], pick),
+    build = {"op": "build", "dst": "a", "layout": instantiate(case["from"], pick, True),
              "want": ["json", "type", "valid", "digest"]}
     if act == "validity":
         build["want"] = ["valid"]
@@ -285,11 +296,11 @@ def steps_for(case, pick):
         op = {"op": "reduce", "src": "a", "reducer": a["reducer"], "axis": a["axis"], "mask": a["mask"],
               "keepdims": a["keepdims"]}
     elif act == "concat":
-        b2 = {"op": "build", "dst": "b", "layout": instantiate(case["aux"], pick), "want": ["json", "type", "valid", "digest"]}
+        b2 = {"op": "build", "dst": "b", "layout": instantiate(case["aux"], pick, True), "want": ["json", "type", "valid", "digest"]}
         op = {"op": "concat0", "src": "b", "others": ["a"], "dst": "r", "want": ["json", "type", "valid"]}
         return [build, b2, op, {"op": "digest", "src": "a"}]
     elif act == "setfield":
-        b2 = {"op": "build", "dst": "b", "layout": instantiate(case["aux"], pick), "want": ["json", "type", "valid", "digest"]}
+        b2 = {"op": "build", "dst": "b", "layout": instantiate(case["aux"], pick, True), "want": ["json", "type", "valid", "digest"]}
         op = {"op": "setitem_field", "src": "b", "what": "a", "dst": "r", "want": ["json", "type", "valid"]}
         if "where" in a:
             op["wherei"] = a["where"]
